@@ -159,7 +159,7 @@ class _ExactLanguageSearch:
                 possible_parsed, possible_substrings
             )
             for k in range(len(parsed_best)):
-                if parsed_best[k][0]["date_obj"]:
+                if parsed_best[k][0]["date_obj"] and substrings_best[k]:
                     parsed.append(parsed_best[k])
                     substrings.append(substrings_best[k])
         return parsed, substrings
